@@ -7,8 +7,9 @@
    split_single_dim) and ARBITRARY scripted benefits; `base` is the minimum level assumed by the diagonal arithmetic of
    coarsen_grid versions 1,2 (1 = pinned code, lmin = proposed repair) - the tiling theorems hold for every value. *)
 From Coq Require Import ZArith List Bool QArith Qcanon Lia.
-From SG Require Import Base.QcUtil Model.CombiScheme Model.ExtendSplit
-     Proofs.ESGeom Proofs.ESInv Proofs.ESTree Proofs.ESCombi.
+From Coq Require Import Permutation.
+From SG Require Import Base.QcUtil Model.CombiScheme Model.StdCombi Model.ExtendSplit Model.ESInterp
+     Proofs.StdCombiSum Proofs.StdNodal Proofs.ESGeom Proofs.ESInv Proofs.ESTree Proofs.ESCombi Proofs.ESV0 Proofs.ESNodal Proofs.ESDict Proofs.ESShift Proofs.ESRestart.
 Import ListNotations.
 Open Scope Z_scope.
 
@@ -132,3 +133,193 @@ Proof.
   split; [vm_compute; reflexivity | split; [|vm_compute; reflexivity]].
   unfold in_grid. constructor; [|constructor; [|constructor]]; apply in_pts1b_spec; vm_compute; reflexivity.
 Qed.
+
+(* ==================================================================================================================
+   GENERAL THEOREMS (all dimensions >= 2, all levels, all admissible coarsening values, all histories)
+   ================================================================================================================== *)
+
+(* ---- version 0 (the default): the FULL STATEMENT above, proved for every d >= 2, every lmin <= lmax (any integers)
+   and every coarsening value an area can carry (0 <= c <= lmax - lmin, C07_coarsening_nonneg); base is unused by
+   version 0.  Proof (Proofs/ESV0.v): the dictionary levelvec_dict is the first-occurrence map key -> level vector; the
+   grids that are computed are in bijection with the level vectors of the standard combination of level lmax - c. *)
+Theorem C07_local_combi_v0_valid : forall n lmin lmax c base, 0 <= c <= lmax - lmin ->
+  valid_local_combi (S (S n)) (local_combi (mkCP (S (S n)) 0 lmin lmax base) c) = true.
+Proof. exact local_combi_v0_valid. Qed.
+Print Assumptions C07_local_combi_v0_valid.
+
+(* what version 0 computes: the local combination of an area with coarsening value c IS (a permutation of) the closed-form
+   standard combination scheme of level lmax - c, in levels relative to lmin *)
+Theorem C07_local_combi_v0_is_standard_combination : forall n lmin lmax c base, 0 <= c <= lmax - lmin ->
+  Permutation (local_combi (mkCP (S (S n)) 0 lmin lmax base) c)
+              (shifted lmin (combi_scheme_standard (S (S n)) lmin (lmax - c))).
+Proof. exact local_combi_v0_perm. Qed.
+Print Assumptions C07_local_combi_v0_is_standard_combination.
+
+(* the verified checker is also complete: it accepts exactly the well-formed grid lists with inclusion-exclusion on
+   their downward closure *)
+Theorem C07_valid_local_combi_complete : forall d gs, grids_wf d gs -> local_IE d gs -> valid_local_combi d gs = true.
+Proof. exact valid_local_combi_complete. Qed.
+Print Assumptions C07_valid_local_combi_complete.
+
+(* ---- the dictionary over histories (ALL versions): whatever calls of coarsen_grid happened on an area before
+   (evaluation, observation / interpolation passes, twin-error passes of split_single_dim), the component grids that are
+   computed on it in its current dictionary state are local_combi of the current scheme and its coarsening value - the
+   function the validity theorems speak about.  (update() empties the dictionary whenever lmax changes.) *)
+Theorem C07_area_grids_independent_of_call_history :
+  forall dim version nrbe lmin lmax base auto single a b bens0, wfbox a b -> length a = dim -> lmin <= lmax ->
+  forall hist x,
+  let st := run_events (start_state dim version nrbe lmin lmax base auto single a b bens0) hist in
+  In x (st_objs st) ->
+  area_grids (st_cp st) x = local_combi (mkCP dim version lmin (st_lmax st) base) (a_coarse x).
+Proof.
+  intros dim version nrbe lmin lmax base auto single a b bens0 Hbox Hdim Hlev hist x.
+  exact (area_grids_history dim version nrbe lmin lmax base auto single a b bens0 Hbox Hdim Hlev hist x).
+Qed.
+Print Assumptions C07_area_grids_independent_of_call_history.
+
+(* version 0, every dimension >= 2, EVERY history: every area of the container carries a valid local combination *)
+Theorem C07_every_area_valid_local_combi_v0 :
+  forall n nrbe lmin lmax base auto single a b bens0 hist x, wfbox a b -> length a = S (S n) -> lmin <= lmax ->
+  let st := run_events (start_state (S (S n)) 0 nrbe lmin lmax base auto single a b bens0) hist in
+  In x (st_objs st) -> valid_local_combi (S (S n)) (area_grids (st_cp st) x) = true.
+Proof. exact v0_every_area_valid. Qed.
+Print Assumptions C07_every_area_valid_local_combi_v0.
+
+(* ---- nodal exactness ("the local interpolant reproduces an arbitrary function at those points").
+   local_interp s e gs f = sum over the computed grids of coefficient * multilinear interpolant of f on the trapezoidal
+   area grid (np.linspace(s_d, e_d, 2^l_d + 1) per dimension).  For EVERY grid list accepted by the checker, every
+   non-degenerate box, EVERY function f and every point x of a computed grid: the interpolant equals f x. *)
+Theorem C07_local_interpolant_nodal_exact : forall d gs s e f x g0 c0,
+  valid_local_combi d gs = true -> box_ok s e -> length s = d -> length e = d ->
+  In (g0, c0) gs -> in_comp true s e x g0 = true -> local_interp s e gs f x = f x.
+Proof. exact checked_local_nodal_exact. Qed.
+Print Assumptions C07_local_interpolant_nodal_exact.
+
+(* version 0, every history, every area, every function, every point of a computed area grid *)
+Theorem C07_every_area_nodal_exact_v0 :
+  forall n nrbe lmin lmax base auto single a b bens0 hist x f p g0 c0, wfbox a b -> length a = S (S n) -> lmin <= lmax ->
+  let st := run_events (start_state (S (S n)) 0 nrbe lmin lmax base auto single a b bens0) hist in
+  In x (st_objs st) -> In (g0, c0) (area_grids (st_cp st) x) -> in_comp true (a_start x) (a_end x) p g0 = true ->
+  area_interp (st_cp st) x f p = f p.
+Proof. exact v0_every_area_nodal_exact. Qed.
+Print Assumptions C07_every_area_nodal_exact_v0.
+
+(* the whole interpolation call of the strategy (__call__ -> interpolate_points -> get_points_in_areas_recursive ->
+   coarsen_grid -> interpolation on the area grid; Model/ESInterp.v): every value returned for a point p is the local
+   interpolant of an area of the container, and equals f p whenever p is a point of a computed grid of that area *)
+Theorem C07_interpolation_nodal_exact_v0 :
+  forall n nrbe lmin lmax base auto single a b bens0 hist f pts p v, wfbox a b -> length a = S (S n) -> lmin <= lmax ->
+  let st := run_events (start_state (S (S n)) 0 nrbe lmin lmax base auto single a b bens0) hist in
+  In (p, v) (es_interpolate st f pts) ->
+  exists x, In x (st_objs st) /\ v = area_interp (st_cp st) x f p /\
+    forall g0 c0, In (g0, c0) (area_grids (st_cp st) x) -> in_comp true (a_start x) (a_end x) p g0 = true -> v = f p.
+Proof. exact v0_interpolation_nodal_exact. Qed.
+Print Assumptions C07_interpolation_nodal_exact_v0.
+
+(* versions 1,2 (and 0): the same for every history, conditional on the checker accepting local_combi for the area's
+   (lmax, coarsening) - which C07_local_combi_valid_bounded proves inside its box and the run evaluates per explored case *)
+Theorem C07_every_area_nodal_exact_checked :
+  forall dim version nrbe lmin lmax base auto single a b bens0 hist x f p g0 c0, wfbox a b -> length a = dim -> lmin <= lmax ->
+  let st := run_events (start_state dim version nrbe lmin lmax base auto single a b bens0) hist in
+  In x (st_objs st) -> valid_local_combi dim (local_combi (mkCP dim version lmin (st_lmax st) base) (a_coarse x)) = true ->
+  In (g0, c0) (area_grids (st_cp st) x) -> in_comp true (a_start x) (a_end x) p g0 = true ->
+  area_interp (st_cp st) x f p = f p.
+Proof. exact checked_area_nodal_exact. Qed.
+Print Assumptions C07_every_area_nodal_exact_checked.
+
+(* ---- versions 1,2 (lmin-aware diagonal arithmetic, base = lmin): coarsen_grid is invariant under shifting lmin, lmax,
+   base and all levels of the scheme by the same k - the local combination depends on (d, version, lmax - lmin, c) only *)
+Theorem C07_local_combi_v12_shift_invariant : forall k d v lmin lmax base c, v <> 0 -> (0 < d)%nat ->
+  local_combi (mkCP d v (lmin + k) (lmax + k) (base + k)) c = local_combi (mkCP d v lmin lmax base) c.
+Proof. exact local_combi_v12_shift. Qed.
+Print Assumptions C07_local_combi_v12_shift_invariant.
+
+(* BOUNDED in d 2..5, lmax - lmin 0..6, coarsening 0..lmax-lmin+2 (enumeration), but for EVERY integer lmin (shift
+   invariance): versions 1,2 give a valid local combination *)
+Theorem C07_local_combi_v12_valid_all_lmin_bounded : forall d v span c lmin,
+  In d [2%nat; 3%nat; 4%nat; 5%nat] -> In v [1; 2] -> In span (zrange 7) -> In c (zrange (span + 3)) ->
+  valid_local_combi d (local_combi (mkCP d v lmin (lmin + span) lmin) c) = true.
+Proof. exact local_combi_v12_valid_all_lmin. Qed.
+Print Assumptions C07_local_combi_v12_valid_all_lmin_bounded.
+
+(* ---- histories WITH RESTARTS on the same object (event2 = driver step | observation pass | restart
+   performSpatiallyAdaptiv(..., refinement_container=self.refinement), which evaluates every area again): tiling, point
+   assignment, coarsening bounds and the local combination of version 0 *)
+Section History2.
+Variables (dim : nat) (version nrbe lmin lmax base : Z) (auto single : bool) (a b : list Qc) (bens0 : list (box * Z)).
+Hypotheses (Hbox : wfbox a b) (Hdim : length a = dim) (Hlev : lmin <= lmax).
+Let reach2 (hist : list event2) : state :=
+  run_events2 (start_state dim version nrbe lmin lmax base auto single a b bens0) hist.
+
+Theorem C07_leaves_tile_domain_with_restarts : forall hist, Parts dim (a, b) (map abox (st_objs (reach2 hist))).
+Proof. intro hist. exact (leaves_tile_domain2 dim version nrbe lmin lmax base auto single a b bens0 Hbox Hdim Hlev hist). Qed.
+
+Theorem C07_coarsening_nonneg_with_restarts : forall hist x, In x (st_objs (reach2 hist)) ->
+  0 <= a_coarse x <= st_lmax (reach2 hist) - lmin.
+Proof. intros hist x. exact (coarsening_nonneg2 dim version nrbe lmin lmax base auto single a b bens0 Hbox Hdim Hlev hist x). Qed.
+
+Theorem C07_point_assignment_partition_with_restarts : forall hist pts,
+  (forall p, In p pts -> length p = dim /\ contains a b p = true) ->
+  let res := assign_points (current_tree (reach2 hist)) pts in
+  (forall p, occ p (assigned res) = occ p pts) /\
+  (forall bx ps, In (bx, ps) res -> In bx (map abox (st_objs (reach2 hist))) /\ forall p, In p ps -> inb bx p = true).
+Proof. intros hist pts. exact (point_assignment_partition2 dim version nrbe lmin lmax base auto single a b bens0 Hbox Hdim Hlev hist pts). Qed.
+
+Theorem C07_area_grids_independent_of_call_history_with_restarts : forall hist x, In x (st_objs (reach2 hist)) ->
+  area_grids (st_cp (reach2 hist)) x = local_combi (mkCP dim version lmin (st_lmax (reach2 hist)) base) (a_coarse x).
+Proof. intros hist x. exact (area_grids_history2 dim version nrbe lmin lmax base auto single a b bens0 Hbox Hdim Hlev hist x). Qed.
+End History2.
+Print Assumptions C07_leaves_tile_domain_with_restarts.
+Print Assumptions C07_coarsening_nonneg_with_restarts.
+Print Assumptions C07_point_assignment_partition_with_restarts.
+Print Assumptions C07_area_grids_independent_of_call_history_with_restarts.
+
+Theorem C07_every_area_valid_local_combi_v0_with_restarts :
+  forall n nrbe lmin lmax base auto single a b bens0 hist x, wfbox a b -> length a = S (S n) -> lmin <= lmax ->
+  let st := run_events2 (start_state (S (S n)) 0 nrbe lmin lmax base auto single a b bens0) hist in
+  In x (st_objs st) -> valid_local_combi (S (S n)) (area_grids (st_cp st) x) = true.
+Proof. exact v0_every_area_valid2. Qed.
+Print Assumptions C07_every_area_valid_local_combi_v0_with_restarts.
+
+(* ---- non-vacuity of the general theorems.  d = 3, lmin = 2, lmax = 6, coarsening 3 (a case with many collisions in the
+   dictionary: 31 component grids, 4 of them computed): the computed grids are the standard scheme of level
+   lmax - c = 3 relative to lmin = 2 *)
+Example C07_nonvacuous_v0_general :
+  length (the_scheme (mkCP 3 0 2 6 1)) = 31%nat /\
+  local_combi (mkCP 3 0 2 6 1) 3 =
+    [([0; 0; 1], 1); ([0; 1; 0], 1); ([1; 0; 0], 1); ([0; 0; 0], -2)] /\
+  valid_local_combi 3 (local_combi (mkCP 3 0 2 6 1) 3) = true.
+Proof. vm_compute. repeat split; reflexivity. Qed.
+
+(* the history of C07_nonvacuous: 7 areas; the area [0,1/4]x[-1,-1/2] (coarsening 0) computes 5 grids, the others 3;
+   f = x^2 + 2 y^2 + (1/2 + x)(3 + y) is NOT multilinear; the combined interpolant reproduces it at the area grid points
+   (1/16, -1/2) (grid (2,0) of the last area) and (3/4, 1) (grid (1,0) of [1/2,1]x[0,1]) and differs from it at the
+   non-grid point (1/3, -1/5) *)
+Example C07_nonvacuous_interpolation :
+  let a := [Q2Qc 0; Q2Qc (-1 # 1)] in let b := [Q2Qc 1; Q2Qc 1] in
+  let st := run_events (start_state 2 0 1 1 2 1 false false a b [(([Q2Qc 0; Q2Qc (-1 # 1)], [Q2Qc (1 # 2); Q2Qc 0]), 8)])
+                [Observe; Step (mkStep [] [(([Q2Qc 0; Q2Qc (-1 # 1)], [Q2Qc (1 # 4); Q2Qc (-1 # 2)]), 8)]); Observe;
+                 Step (mkStep [] [])] in
+  let f := fun_poly [Q2Qc 1; Q2Qc 2] [Q2Qc (1 # 2); Q2Qc 3] in
+  let p1 := [Q2Qc (1 # 16); Q2Qc (-1 # 2)] in let p2 := [Q2Qc (3 # 4); Q2Qc 1] in let p3 := [Q2Qc (1 # 3); Q2Qc (-1 # 5)] in
+  map (fun x => length (area_grids (st_cp st) x)) (st_objs st) = [3; 3; 3; 3; 3; 3; 5]%nat /\
+  in_comp true [Q2Qc 0; Q2Qc (-1 # 1)] [Q2Qc (1 # 4); Q2Qc (-1 # 2)] p1 [2; 0] = true /\
+  in_comp true [Q2Qc (1 # 2); Q2Qc 0] [Q2Qc 1; Q2Qc 1] p2 [1; 0] = true /\
+  map (fun pv => this (snd pv)) (es_interpolate st f [p1; p2; p3]) = [this (f p1); (1223 # 480)%Q; this (f p2)] /\
+  this (f p3) = (568 # 225)%Q.
+Proof. vm_compute. repeat split; reflexivity. Qed.
+
+(* a history with a restart: after two steps all 7 areas are evaluated again with new benefits (only the benefit of the
+   area [1/2,1]x[0,1] is 1), the following step splits exactly that area: 10 areas *)
+Example C07_nonvacuous_restart :
+  let a := [Q2Qc 0; Q2Qc (-1 # 1)] in let b := [Q2Qc 1; Q2Qc 1] in
+  let st := run_events2 (start_state 2 0 1 1 2 1 false false a b [(([Q2Qc 0; Q2Qc (-1 # 1)], [Q2Qc (1 # 2); Q2Qc 0]), 8)])
+                [Ev Observe; Ev (Step (mkStep [] [(([Q2Qc 0; Q2Qc (-1 # 1)], [Q2Qc (1 # 4); Q2Qc (-1 # 2)]), 8)]));
+                 Ev (Step (mkStep [] [])); Restart [(([Q2Qc (1 # 2); Q2Qc 0], [Q2Qc 1; Q2Qc 1]), 8)];
+                 Ev (Step (mkStep [] []))] in
+  length (st_objs st) = 10%nat /\ st_lmax st = 3 /\ map a_coarse (st_objs st) = [1; 1; 1; 1; 1; 0; 1; 1; 1; 1].
+Proof. vm_compute. repeat split; reflexivity. Qed.
+
+Example C07_nonvacuous_v12_shift :
+  local_combi (mkCP 3 1 7 10 7) 2 = local_combi (mkCP 3 1 1 4 1) 2 /\ length (local_combi (mkCP 3 1 7 10 7) 2) = 19%nat.
+Proof. vm_compute. split; reflexivity. Qed.
